@@ -2,9 +2,9 @@
 from corr import corr_mesh
 import implsearch as IS
 
-MODULES = ["PyFV.Props.C10", "PyFV.Props.GenEqVol", "PyFV.Props.GenEqMesh"]
+MODULES = ["PyFV.Props.C10", "PyFV.Props.GenEqVol", "PyFV.Props.GenEqMesh", "PyFV.Props.GenEqObs"]
 TRANSLATORS = {"T-num": "python3 harness/translate/tnum.py lean/PyFV/Gen/Stencils.lean",
-               "T-mesh": "python3 harness/translate/tmesh.py lean/PyFV/Gen/MeshGen.lean"}
+               "T-mesh": "python3 harness/translate/tmesh.py lean/PyFV/Gen/MeshGen.lean", "T-obs": "python3 harness/translate/tobs.py lean/PyFV/Gen/ObsGen.lean"}
 EXTRA_TRUST = ["Real.cos / Real.pi of Mathlib give the meaning of the θ-factor in the SphericalGrid3D counterexample; elsewhere sin/cos/π are parameters"]
 
 
